@@ -24,12 +24,24 @@ def _names(node, ctxtype):
     return {n.id for n in ast.walk(node) if isinstance(n, ast.Name) and isinstance(n.ctx, ctxtype)}
 
 
+def _comprehension_locals(node):
+    """names bound by comprehensions / generator expressions / lambdas inside node: they are local to those"""
+    out = set()
+    for n in ast.walk(node):
+        if isinstance(n, (ast.ListComp, ast.SetComp, ast.DictComp, ast.GeneratorExp)):
+            for g in n.generators:
+                out |= {x.id for x in ast.walk(g.target) if isinstance(x, ast.Name)}
+        elif isinstance(n, ast.Lambda):
+            out |= {a.arg for a in n.args.args}
+    return out
+
+
 def _loads(node):
-    return {n.id for n in ast.walk(node) if isinstance(n, ast.Name) and isinstance(n.ctx, ast.Load)}
+    return {n.id for n in ast.walk(node) if isinstance(n, ast.Name) and isinstance(n.ctx, ast.Load)} - _comprehension_locals(node)
 
 
 def _stores(node):
-    return {n.id for n in ast.walk(node) if isinstance(n, ast.Name) and isinstance(n.ctx, (ast.Store, ast.Del))}
+    return {n.id for n in ast.walk(node) if isinstance(n, ast.Name) and isinstance(n.ctx, (ast.Store, ast.Del))} - _comprehension_locals(node)
 
 
 def _rbw(stmts, defined):
